@@ -17,7 +17,8 @@ def run(tier):
                 "evaluated to canonical form with symbolic exponent and compared with the formal derivatives of x^n for all "
                 "parts and presence patterns; powd (default and overrides) equals the lifting of exp(n ln x) in both operands; "
                 "integer range analysis: every i32-typed arithmetic sub-expression of powi stays inside i32 for |n| <= 2^30 "
-                "(interval arithmetic; a violation is reported only with an exact witness exponent); float instances forward to std",
+                "(interval arithmetic; a violation is reported only with an exact witness exponent); float instances forward to std; "
+                "the power items of nalgebra's ComplexField impls (powi, powf and powc with a dual exponent, sqrt, cbrt, recip) equal the same liftings",
                 assumptions=["identities over the reals; overflow/underflow of x^(n-3) in floats is not decided",
                              "the |n-2|<eps arm is compared with x^2 (equal up to the guard's tolerance)"],
                 trusted_base=["rustc type checker and name resolution", "ndv-export", "ndvlib/poly.py", "gradings (A.1)"])
@@ -31,6 +32,11 @@ def run(tier):
         check_i32_ranges(chk, F, ty)
         check_roots(chk, F, ty)
     check_float_forwards(chk, F)
+    # the power items of nalgebra's field interface (powi / powf / powc with a DUAL exponent / sqrt / cbrt / recip) are the same powers
+    from . import c11
+    for ty in c11.FIELD4:
+        c11.complex_field(chk, F, ty, thorough=True, branches=False, only=("powi", "powf", "powc", "sqrt", "cbrt", "recip"))
+    chk.floor("ComplexField forwarding items", chk.analysed.get("ComplexField forwarding items", 0), 4 * 6)
     chk.floor("powi bodies range-analysed", chk.analysed.get("powi bodies range-analysed", 0), 8)
     chk.floor("end-to-end evaluations", chk.analysed.get("end-to-end evaluations", 0), 8 * 10)
     return chk.finish()
@@ -69,9 +75,9 @@ def check_powd(chk, F, ty):
             sp = Spec(ty, absent_set("self", pa) | absent_set("other", pb))
             key = "pow|%s|powd%s|presence=%s%s" % (ty, "(override)" if override else "", pres_tag(pa), pres_tag(pb))
             try:
-                r = Interp(F, DOMK).call_body(body, [sp.operand("self", pa), sp.operand("other", pb)])
-                compare_parts(chk, key, "powd is the lifting of exp(n ln x) in base and exponent", body_loc(F, body), sp, r,
-                              sp.spec_of_real(base))
+                for sfx, r, _ in all_paths(F, body, lambda: [sp.operand("self", pa), sp.operand("other", pb)]):
+                    compare_parts(chk, key + sfx, "powd is the lifting of exp(n ln x) in base and exponent", body_loc(F, body), sp, r,
+                                  sp.spec_of_real(base))
                 chk.count("powd evaluations")
             except Unsupported as ex:
                 chk.undecide(key, "unsupported: %s" % ex, body_loc(F, body))
